@@ -716,8 +716,13 @@ func (f *FuncFacts) context(b *ssa.BasicBlock, rejEdge map[[2]int]bool) []ctxEdg
 }
 
 func (f *FuncFacts) isLoopExit(d *ssa.BasicBlock, k int) bool {
-	if k == 1 && f.c.rotByPre(d) != nil {
+	if k == 1 && (f.c.rotByPre(d) != nil || f.c.rotByLatch(d) != nil) {
 		return true
+	}
+	for _, rl := range f.c.rotLoops() {
+		if rl.body == d {
+			return false // the header of a rotated loop is its body: a branch there is a break, not the loop test
+		}
 	}
 	// only the loop's own test: leaving through it says no more than "the loop is over". An exit
 	// from inside the body (conditional return or break) is a decision and keeps its condition.
